@@ -8,6 +8,7 @@
    correspondence case).  den E : term -> nform is the denotation in the
    group G = Q* x Z^(base elements) of Model/Dim.v; nf_eq is equality in G. *)
 From Coq Require Import ZArith QArith List.
+From QV Require Import Gen.TermOpsImpl Proofs.GenTermOpsEq.
 From QV Require Import Model.Num Model.Dim Model.Term Proofs.DimProofs
      Proofs.C07Reduce Proofs.C07Shape Proofs.C07Proofs.
 Import ListNotations.
@@ -117,6 +118,26 @@ Definition ex_table : list (N * elem_info) :=
               [(Num (5 # 18), 1); (El 0%N, 1); (El 2%N, -1)] 6%N (Some (5 # 18)));     (* km/h *)
     (4%N, mkInfo 15 true [69%N; 85%N; 82%N] [(El 4%N, 1)] 15%N None);                  (* EUR *)
     (5%N, mkInfo 15 true [85%N; 83%N; 68%N] [(El 5%N, 1)] 15%N None) ].                (* USD *)
+
+(* THE MODEL IS THE CODE (operator layer): Term.__mul__ / __rmul__, __truediv__,
+   __rtruediv__, __pow__, reciprocal and _reciprocal are re-translated from
+   src/quantity/term.py on every run (Gen/TermOpsImpl.v, fail-closed ast translator
+   translate/termops.py: which item lists are chained in which order, which operand
+   is inverted, the item a number contributes, the length handed to _reduce_items,
+   the exponent arithmetic, whether the constructor reduces again) and are equal,
+   for every element table and all operands, to the operations the theorems above
+   are about.  _reduce_items, __init__, normalized, __eq__ and __hash__ stay
+   hand-modelled (Model/Term.v) and are tied to the code by the correspondence. *)
+Theorem C07_operators_are_translated_code : forall (E : env) (s t : term) (q : Q) (k : Z),
+  term_mul_impl E s t = Some (mul E s t) /\
+  term_mul_num_impl E s q = Some (mul_num E s q) /\
+  term_div_impl E s t = Some (div E s t) /\
+  term_div_num_impl E s q = Some (div_num E s q) /\
+  term_rdiv_num_impl E s q = Some (rdiv_num E q s) /\
+  term_pow_impl E s k = Some (pow E s k) /\
+  term_reciprocal_impl E s = Some (reciprocal s).
+Proof. exact term_ops_impl_eq. Qed.
+Print Assumptions C07_operators_are_translated_code.
 
 Example C07_hypotheses_satisfiable : table_ok ex_table = true.
 Proof. vm_compute. reflexivity. Qed.
